@@ -5,7 +5,7 @@ import numpy as np
 from hypothesis import strategies as st
 
 from vp import sut
-from vp.gens import meta as gm, recording as rec
+from vp.gens import meta as gm, recording as rec, weighted
 from vp.oracles import calib
 
 ID = "C13"
@@ -40,7 +40,20 @@ RULE = ("Case = recording (flat float32 / flat int16 opened with explicit nc/ns/
         "make_channel_index geometry C / Fortran / transposed / strided / float32 / int64, extract_wfs_array traces C / "
         "transposed / row- or column-strided / float32 / float64 / int16 (+NaN row added by the function), sample and "
         "peak-channel columns int64 / int32 / uint32 / int16 / uint8 / uint64, table index offset or shuffled, neighbour "
-        "table int32 / Fortran-ordered, loader labels / indices as array, list, tuple, int32, uint64.")
+        "table int32 / Fortran-ordered, loader labels / indices as array, list, tuple, int32, uint64. REAL-DATA SCALE (field "
+        "scale, labels scale_*; ~1 % of the cases file level, ~3 % in memory): (file) a flat int16 / float32 recording of 2^20+200 .. 1.3e6 samples (a "
+        "quarter: beyond 2e6 or 2^21; length optionally a multiple of the chunk size +-1) x 4-8 channels, a train of more "
+        "than 10^6 / 2^20 spikes anywhere in the file spread over 1-60 units plus up to 60 special units of <= max_wf spikes each "
+        "(so that all of them are selected): every boundary offset around each multiple of 2^20 and 10^6 and around the chunk "
+        "seams of both configurations on either side of it and the first / last seam, one spike "
+        "exactly on every chunk seam of the first configuration (up to 450 seams), seams and multiples of 2^16 / 10^5 at a "
+        "boundary offset, both validity limits; chunk sizes 500-10000 incl. 1000 / 1024 / 4096 / 8192 / 10000 (up to 2600 "
+        "chunks), same oracle as above with the membership test on integer keys; (array) extract_wfs_array on 4-8 x "
+        "2^20..2^21+7e4 samples or 1-2 x (2^24 + 300..2^17) samples, float32 with the NaN row / float32 or int16 with "
+        "add_nan_trace, C or transposed, 2^16+1 .. 2^17+3000 sorted spikes: both ends, every position within one window of "
+        "the multiples of 2^20 / 10^6, boundary offsets around the multiples of 2^16 / 10^5, random elsewhere; expected "
+        "stack by NumPy fancy indexing compared bit for bit in blocks of 4096 rows. Non-trivial (scale) = a selected / "
+        "extracted window holds a multiple of 2^20 or 10^6 (array: and more than 2^16 spikes).")
 EXHAUSTIVE_NOTE = ("every spike offset within +-130 samples of the first, second and last chunk boundary, every sample of "
                    "the first and the last 300 samples of the file, for a fixed list of chunk sizes (see CHUNKS_ENUM) on "
                    "one geometry; everything else (geometries, unit sizes, other chunk sizes, workers, seeds) is sampled")
@@ -64,6 +77,9 @@ ASSUMPTIONS = [
     "loader labels are passed in ascending order (the order of the returned rows for unsorted labels is not documented)",
     "objects returned by make_channel_index / extract_wfs_array / load_waveforms belong to the caller: overwriting them "
     "must not change later answers",
+    "real-data scale class: flat recordings only (a SpikeGLX file of 16+ channels x 10^6 samples and its decompressed copy "
+    "exceed the scratch budget); sample positions stop at 2^24 + 2^17 in memory and 2^21 + 2e4 in files (10^8 samples do "
+    "not fit the 1 GB / 50 MB budget of a case), spike counts at 1.3e6 (files) and 1.3e5 (in memory, one returned stack)",
 ]
 BUDGET = {"quick": 320, "thorough": 9000}
 SHRINK = {"quick": False, "thorough": True}
@@ -134,6 +150,107 @@ def _valid_range(ns, off, length):
     return off + 1, ns - (length - off) - 1  # inclusive bounds of valid samples
 
 
+# real-data scale (field "scale", absent in ordinary cases): the blocks a batching implementation is likely to use
+_BIG_BLOCKS = (2 ** 20, 10 ** 6)
+_ROUND_STEPS = (2 ** 16, 10 ** 5)
+
+
+def _big_seams(ns):
+    """Multiples of 2^20 and 10^6 inside a recording of ns samples."""
+    return sorted({int(m) for b in _BIG_BLOCKS for m in range(b, ns, b)})
+
+
+def _scale_positions(case):
+    """Special spike positions of a scale-file case, most important first: every boundary offset around the multiples of
+    2^20 / 10^6 and around the chunk seams (both configurations) next to them, a spike exactly on every chunk seam of the
+    first configuration (all seams, or the ones next to the big
+    blocks and file ends + a random subset when there are more than sc['max_seams']), some seams at a boundary offset, the
+    multiples of 2^16 / 10^5 and one boundary offset next to each."""
+    sc = case["scale"]
+    ns = case["ns"]
+    off, length = case["win"]
+    rng = np.random.default_rng(sc["pseed"])
+    offs = np.array(_bnd_offsets(off, length), dtype=np.int64)
+    big = _big_seams(ns)
+    chunk = int(case["runs"][0]["chunk"])
+    # where the two grids meet: the chunk seams on either side of a big block boundary, of both configurations (all in a
+    # handful of chunks, so cheap), and the first / last seam
+    meet = set(big)
+    for run in case["runs"]:
+        ck = int(run["chunk"])
+        last = (ns - 1) // ck
+        meet |= {q * ck for b in big for q in (b // ck, b // ck + 1) if 1 <= q <= last}
+        meet |= {q * ck for q in (1, last) if 1 <= q <= last}
+    top = np.concatenate([m + offs for m in sorted(meet)])
+    pos = top[rng.permutation(top.size)].tolist()
+    k = np.arange(1, (ns - 1) // chunk + 1, dtype=np.int64)
+    if k.size > sc["max_seams"]:
+        near = {int(min(max(b // chunk + e, 1), k[-1])) for b in big for e in (0, 1)} | {1, int(k[-1])}
+        rest = rng.permutation(k)[:max(0, sc["max_seams"] - len(near))]
+        k = np.unique(np.r_[np.array(sorted(near), dtype=np.int64), rest])
+    pos += (k * chunk).tolist()
+    if k.size:
+        sub = rng.permutation(k)[:60]
+        pos += (sub * chunk + rng.choice(offs, size=sub.size)).tolist()
+    for step in _ROUND_STEPS:
+        m = np.arange(step, ns, step, dtype=np.int64)
+        pos += m.tolist()
+        pos += (m + rng.choice(offs, size=m.size)).tolist()
+    pos += [off + 1, ns - (length - off) - 1, off, ns - (length - off)]  # both validity limits, valid and not
+    return [int(min(max(p, 0), ns - 1)) for p in pos]
+
+
+def _scale_units(case):
+    """The special positions of a scale-file case as units of at most max_wf valid spikes each (so that every one of them
+    is selected), in the format of case['units']."""
+    sc = case.get("scale")
+    if not sc or sc.get("kind") != "file":
+        return []
+    ns = case["ns"]
+    off, length = case["win"]
+    lo, hi = _valid_range(ns, off, length)
+    max_wf = case["max_wf"]
+    pos = _scale_positions(case)[:sc["max_special_units"] * max_wf]
+    rng = np.random.default_rng(sc["pseed"] ^ 0x9e3779b9)
+    pos = [pos[i] for i in rng.permutation(len(pos))]
+    units = []
+    for j in range(0, len(pos), max_wf):
+        part = pos[j:j + max_wf]
+        units.append({"id": sc["special_id0"] + len(units), "target": sum(1 for p in part if lo <= p <= hi), "fixed": part,
+                      "chan": {"mode": "any", "c": 0}, "rseed": int(sc["pseed"]) + 1 + len(units)})
+    return units
+
+
+def _scale_bulk(case):
+    """The bulk of the spike train of a scale-file case: sc['nbulk'] spikes anywhere in the file (valid or not) spread over
+    sc['nbu'] units and all channels. None for ordinary cases."""
+    sc = case.get("scale")
+    if not sc or sc.get("kind") != "file":
+        return None
+    rng = np.random.default_rng(sc["bseed"])
+    n = sc["nbulk"]
+    s = rng.integers(0, case["ns"], size=n, dtype=np.int64)
+    u = sc["bulk_id0"] + sc["bulk_step"] * rng.integers(0, sc["nbu"], size=n, dtype=np.int64)
+    c = rng.integers(0, _n_channels(case), size=n, dtype=np.int64)
+    return s, u, c
+
+
+def _unit_ids(case):
+    """Ids the loader queries index into: the units of the case, then (scale-file cases) the special and the bulk units."""
+    ids = [un["id"] for un in case["units"]]
+    sc = case.get("scale")
+    if sc and sc.get("kind") == "file":
+        ids += [un["id"] for un in _scale_units(case)]
+        ids += [sc["bulk_id0"] + sc["bulk_step"] * k for k in range(sc["nbu"])]
+    return ids
+
+
+def _valid_counts(u, valid):
+    """(unit ids ascending, number of valid spikes of each) - vectorised, the trains of the scale class hold > 10^6 spikes."""
+    ids, inv = np.unique(u, return_inverse=True)
+    return ids, np.bincount(inv.reshape(-1)[valid], minlength=ids.size)
+
+
 def _build_spikes(case):
     """Returns (samples, clusters, channels) sorted by sample, int64."""
     ns = case["ns"]
@@ -142,7 +259,12 @@ def _build_spikes(case):
     lo, hi = _valid_range(ns, off, length)
     per_unit = []
     rows_s, rows_u, rows_c = [], [], []
-    for u in case["units"]:
+    bulk = _scale_bulk(case)
+    if bulk is not None:
+        rows_s.append(bulk[0])
+        rows_u.append(bulk[1])
+        rows_c.append(bulk[2])
+    for u in list(case["units"]) + _scale_units(case):
         rng = np.random.default_rng(u["rseed"])
         cand = [int(v) for v in u["fixed"]]
         dj = u.get("dup_from")
@@ -372,8 +494,136 @@ def _case(draw, tier):
     return case
 
 
+# ---------------------------------------------------------------------------------------------------
+# real-data scale (rare): a recording of more than 2^20 samples with a train of more than 2^20 spikes, or an in-memory array
+# of up to 2^24 samples with more than 2^16 spikes; spikes on and next to the multiples of 2^20 / 10^6 / 2^16 / 10^5 and on
+# every chunk seam. A batching change introduces a block size the generator cannot know; small inputs never cross it.
+
+_SCALE_CHUNKS = [500, 1000, 1024, 2048, 2500, 3000, 4096, 5000, 8192, 10000]
+
+
+def _st_geom_small(draw, n):
+    kind = draw(st.sampled_from(["np1", "np1", "np2", "np24", "ultra"]))
+    return {"kind": kind, "n": n, "layout": draw(st.sampled_from(["dense", "dense", "sparse", "shuffled"])),
+            "start": draw(st.integers(0, _GRID_LEN[kind] - 3 * n)), "gseed": draw(st.integers(0, 2 ** 32 - 1))}
+
+
+@st.composite
+def _scale_file_case(draw, tier):
+    mode = draw(st.sampled_from(["flat16", "flat16", "flat32"]))
+    two_blocks = mode == "flat16" and draw(st.integers(0, 3)) == 0  # long enough to hold 2 * 10^6 (and 2^21)
+    omit_chunk = draw(st.integers(0, 3)) == 0
+    chunk_a = 3000 if omit_chunk else draw(st.one_of(st.sampled_from(_SCALE_CHUNKS), st.integers(500, 10000)))
+    chunk_b = draw(st.one_of(st.sampled_from([5000, 8192, 10000]), st.integers(5000, 10000)))  # the cheaper configuration
+    if two_blocks:
+        ns = draw(st.one_of(st.integers(2 * 10 ** 6 + 200, 2 * 10 ** 6 + 90000), st.integers(2 ** 21 + 200, 2 ** 21 + 20000)))
+    else:
+        ns = draw(st.one_of(st.integers(2 ** 20 + 200, 1300000),
+                            st.sampled_from([2 ** 20 + 2 ** 10, 2 ** 20 + 2 ** 16, 1100000, 1200000])))
+    align = draw(st.sampled_from([None, None, None, 0, 1, -1]))
+    if align is not None:  # the last chunk is full / holds one sample / misses one
+        ns = -(-ns // chunk_a) * chunk_a + align
+    if draw(st.integers(0, 3)) > 0:
+        off, length = TROUGH, LENGTH
+    else:
+        length = draw(st.integers(16, 160))
+        off = draw(st.integers(0, length - 1))
+    n = draw(st.integers(4, 5 if two_blocks else 6 if mode == "flat32" else 8))
+    case = {"mode": mode, "ns": ns, "win": [off, length], "data_seed": draw(st.integers(0, 2 ** 32 - 1)),
+            "geom": _st_geom_small(draw, n)}
+    case["runs"] = [{"chunk": chunk_a, "jobs": draw(st.integers(1, 3)), "backend": "threading"},
+                    {"chunk": chunk_b, "jobs": draw(st.integers(1, 2)), "backend": "threading"}]
+    if omit_chunk:
+        case["runs"][0]["omit_chunk"] = True
+    omit_max_wf = draw(st.integers(0, 7)) == 0
+    max_wf = 256 if omit_max_wf else draw(st.one_of(st.integers(2, 12), st.integers(2, 300)))
+    case["max_wf"] = max_wf
+    dims = {"path": draw(st.sampled_from(["path", "path", "str"])),
+            "spk": draw(st.sampled_from(["contig", "contig", "strided", "negstride"])),
+            "ro": draw(st.sampled_from([False, False, True])),
+            "wfs_dtype": draw(st.sampled_from([None, None, None, "float32", "float16", "float64"])),
+            "chan_labels": draw(st.sampled_from([False, False, False, True])),
+            "check_args": True, "h": draw(st.sampled_from(["f64", "f64", "f32", "int"]))}
+    if omit_max_wf:
+        dims["omit_max_wf"] = True
+    case["dims"] = dims
+    case["seed"] = draw(st.one_of(st.integers(0, 3), st.integers(0, 2 ** 32 - 1)))
+    nbu = draw(st.integers(1, max(1, min(60, 200 // max_wf))))  # the table costs O(units x spikes): 120 units at most
+    bulk_first = draw(st.booleans())
+    bulk_id0 = draw(st.sampled_from([0, 1, 7])) if bulk_first else 5000 + draw(st.integers(0, 100000))
+    bulk_step = draw(st.sampled_from([1, 1, 3]))
+    case["scale"] = {"kind": "file", "pseed": draw(st.integers(0, 2 ** 31 - 1)), "bseed": draw(st.integers(0, 2 ** 32 - 1)),
+                     "nbulk": draw(st.one_of(st.integers(2 ** 20 + 1, 2 ** 20 + 5000), st.integers(10 ** 6 + 1, 1250000))),
+                     "nbu": nbu, "bulk_id0": bulk_id0, "bulk_step": bulk_step,
+                     "special_id0": (bulk_id0 + bulk_step * nbu + draw(st.integers(0, 5))) if bulk_first
+                     else draw(st.integers(0, 1000)),
+                     "max_seams": 450, "max_special_units": 60}
+    case["units"] = []
+    case["tie_seed"] = draw(st.integers(0, 2 ** 32 - 1))
+    case["dtypes"] = [draw(st.sampled_from(["int64", "int64", "uint64", "int32"])),
+                      draw(st.sampled_from(["int64", "int64", "int32", "uint32"])),
+                      draw(st.sampled_from(["int64", "int64", "int32", "int16"]))]
+    ntot = len(_unit_ids(case))
+    queries = []
+    for _ in range(2):
+        lab = draw(st.one_of(st.none(), st.lists(st.integers(0, ntot - 1), min_size=1, max_size=4, unique=True)))
+        ind = draw(st.one_of(st.none(), st.lists(st.integers(0, max_wf + 1), min_size=1, max_size=6, unique=True)))
+        queries.append({"labels": lab, "indices": ind,
+                        "lab_kind": draw(st.sampled_from(["array", "array", "list", "tuple", "int32", "uint64"])),
+                        "ind_kind": draw(st.sampled_from(["list", "list", "array", "tuple", "int32", "uint64"])),
+                        "flatten": draw(st.sampled_from([False, False, True]))})
+    case["queries"] = queries
+    case["ldims"] = {"dir": draw(st.sampled_from(["path", "path", "str"])), "omit_trough": draw(st.booleans()),
+                     "twice": draw(st.booleans()), "scribble": draw(st.booleans())}
+    case["arr"] = None
+    return case
+
+
+_ARR_BUDGET = {"given32": 70000000, "add32": 25000000, "add16": 25000000}  # elements of the returned stack (float32 / float64)
+
+
+@st.composite
+def _scale_array_case(draw):
+    shape = draw(st.sampled_from(["wide", "wide", "long"]))
+    if shape == "wide" and draw(st.integers(0, 2)) > 0:
+        off, length = TROUGH, LENGTH
+    else:
+        length = draw(st.sampled_from([16, 32, 64, 82, 128]))
+        off = draw(st.integers(0, length - 1))
+    if shape == "wide":
+        n = draw(st.integers(4, 8))
+        ns = draw(st.one_of(st.integers(2 ** 20 + 300, 2 ** 21 + 70000),
+                            st.sampled_from([2 ** 20 + 2 ** 16, 2 * 10 ** 6 + 1000, 2 ** 21 + 4096])))
+        src = draw(st.sampled_from(["given32", "given32", "add32", "add16"]))
+    else:  # beyond 2^24 samples (where float32 stops holding every integer), one or two channels
+        n = draw(st.integers(1, 2))
+        ns = 2 ** 24 + draw(st.integers(300, 2 ** 17))
+        src = "given32"
+    geom = _st_geom_small(draw, n)
+    radius = draw(st.sampled_from([200, 200, 40, 25, 0]))
+    x, y = _flat_geometry(geom)
+    nn = max(len(v) for v in _neighbour_lists(x, y, radius * radius))
+    if _ARR_BUDGET[src] // (nn * length) < 2 ** 16 + 1:
+        src = "given32"
+    want = draw(st.one_of(st.integers(2 ** 16 + 1, 2 ** 16 + 3000), st.integers(2 ** 16 + 1, 2 ** 17 + 3000),
+                          st.integers(10 ** 5, 10 ** 5 + 3000)))
+    return {"mode": "scale_array", "ns": ns, "win": [off, length], "data_seed": draw(st.integers(0, 2 ** 32 - 1)), "geom": geom,
+            "scale": {"kind": "array", "shape": shape, "src": src, "radius": radius,
+                      "m": min(want, _ARR_BUDGET[src] // (nn * length)), "sseed": draw(st.integers(0, 2 ** 32 - 1)),
+                      "layout": draw(st.sampled_from(["c", "t", "t"])), "ro": draw(st.sampled_from([False, False, True])),
+                      "df_dt": [draw(st.sampled_from(["int64", "int64", "int32", "uint32"])),
+                                draw(st.sampled_from(["int64", "int64", "int16", "uint8"]))],
+                      "df_index": draw(st.sampled_from(["range", "range", "offset", "shuffled"])),
+                      "nb_kind": draw(st.sampled_from(["int64", "int64", "int32", "f_order"]))},
+            "units": [], "arr": None}
+
+
 def strategy(tier):
-    return _case(tier)
+    # ~4 % of the cases are of the real-data scale: 1 % file level (3-5 s each, three times an ordinary case), 3 % in memory
+    # (1-2 s each, the cost of an ordinary case)
+    # (the rare branches sit in the middle of the index range: Hypothesis favours the ends of an integer range)
+    main = _case(tier)
+    return weighted((480, main), (10, _scale_file_case(tier)), (30, _scale_array_case()), (480, main))
 
 
 # ---------------------------------------------------------------------------------------------------
@@ -693,6 +943,30 @@ def _load_outputs(ctx, out, tag):
     return {"table": table, "t": t, "traces": traces, "channels": channels, "templates": templates}
 
 
+_VECTORISED_ABOVE = 20000  # spikes in the train: beyond this the membership test works on integer keys instead of Counters
+
+
+def _members_vectorised(t, s, u, c, valid, uids, ns, nch):
+    """(every table row is a valid (cluster, sample, channel) spike of the train, as a sub-multiset; a copy of the very first
+    spike of the train - valid - is missing from the table). Same statement as the Counter version, on int64 keys."""
+    def key(ui, ss, cc):
+        return (ui.astype(np.int64) * ns + ss.astype(np.int64)) * nch + cc.astype(np.int64)
+    pk, pcnt = np.unique(key(np.searchsorted(uids, u[valid]), s[valid], c[valid]), return_counts=True)
+    tc, ts, tp = t["cluster"], t["sample"], t["peak_channel"]
+    inr = np.isin(tc, uids) & (ts >= 0) & (ts < ns) & (tp >= 0) & (tp < nch)
+    tk, tcnt = np.unique(key(np.searchsorted(uids, tc[inr]), ts[inr], tp[inr]), return_counts=True)
+    if pk.size == 0:
+        return tc.size == 0, False
+    pos = np.minimum(np.searchsorted(pk, tk), pk.size - 1)
+    ok = bool(np.all(inr[np.isin(tc, uids)])) and bool(np.all((pk[pos] == tk) & (tcnt <= pcnt[pos])))
+    first_missing = False
+    if valid[0]:
+        k0 = key(np.searchsorted(uids, u[:1]), s[:1], c[:1])[0]
+        have = int(tcnt[tk == k0].sum())
+        first_missing = have < int(pcnt[pk == k0].sum())
+    return ok, first_missing
+
+
 def _check_outputs(ctx, case, tag, o, src, lists, nbt, spikes, sfx):
     """Row-wise oracle on one set of output files. Returns the expected waveforms of the table rows (or None)."""
     ns = case["ns"]
@@ -717,17 +991,22 @@ def _check_outputs(ctx, case, tag, o, src, lists, nbt, spikes, sfx):
                                                  f"{' or '.join(sorted(str(v) for v in allowed))}"):
         return None
     # per unit counts and membership
-    units = [int(v) for v in np.unique(u)]
+    uids, nvs = _valid_counts(u, valid)
+    units = [int(v) for v in uids]
+    tcl, tcnt = np.unique(t["cluster"], return_counts=True)
+    gots = dict(zip(tcl.tolist(), tcnt.tolist()))
     deficits = {}
-    for uid in units:
-        nv = int(np.sum(valid & (u == uid)))
-        got = int(np.sum(t["cluster"] == uid))
+    for uid, nv in zip(units, nvs.tolist()):
+        got = gots.get(uid, 0)
         if got != min(max_wf, nv):
             deficits[uid] = (min(max_wf, nv), got)
-    extra = sorted(set(int(v) for v in np.unique(t["cluster"])) - set(units))
+    extra = sorted(set(int(v) for v in tcl) - set(units))
     members_ok = not extra
     first_missing = False
-    for uid in units:
+    if s.size > _VECTORISED_ABOVE:
+        members_ok, first_missing = _members_vectorised(t, s, u, c, valid, uids, ns, nch)
+        members_ok = members_ok and not extra
+    for uid in (units if s.size <= _VECTORISED_ABOVE else []):
         have = collections.Counter(zip(t["sample"][t["cluster"] == uid].tolist(), t["peak_channel"][t["cluster"] == uid].tolist()))
         pool = collections.Counter(zip(s[valid & (u == uid)].tolist(), c[valid & (u == uid)].tolist()))
         if have - pool:
@@ -837,7 +1116,7 @@ def _check_loader(ctx, case, out, o, sfx):
     for i, v in enumerate(t["cluster"].tolist()):
         rank[i] = seen[v]
         seen[v] += 1
-    ids = [un["id"] for un in case["units"]]
+    ids = _unit_ids(case)
 
     def _query(loader, q, scribble=False, again=False):
         labels = _as_selector(None if q["labels"] is None else sorted(ids[k] for k in q["labels"]), q.get("lab_kind"), "array")
@@ -938,8 +1217,134 @@ def _spike_array(a, kind, ro):
     return _readonly(v) if ro else v
 
 
+def _scale_array_spikes(case):
+    """Sorted sample positions and peak channels of a scale-array case: both array ends, every position within one window
+    length of the multiples of 2^20 / 10^6, every boundary offset around the multiples of 2^16 / 10^5, random elsewhere."""
+    a = case["scale"]
+    ns = case["ns"]
+    off, length = case["win"]
+    nch = case["geom"]["n"]
+    m = a["m"]
+    rng = np.random.default_rng(a["sseed"])
+    smin, smax = off, ns - (length - off) - 1  # the window may start on the first sample, it must end before the last
+    near = np.arange(-length - 1, length + 2, dtype=np.int64)
+    offs = np.array(_bnd_offsets(off, length), dtype=np.int64)
+    parts = [np.array([smin, smin + 1, smax - 1, smax], dtype=np.int64)]
+    parts += [b + near for b in _big_seams(ns)]
+    for step in _ROUND_STEPS:
+        parts.append((np.arange(step, ns, step, dtype=np.int64)[:, None] + offs[None, :]).reshape(-1))
+    sp = np.concatenate(parts)
+    sp = sp[rng.permutation(sp.size)][:m]
+    s = np.sort(np.clip(np.r_[sp, rng.integers(smin, smax + 1, size=m - sp.size)], smin, smax))
+    p = rng.integers(0, nch, size=m)
+    p[0], p[-1] = 0, nch - 1
+    return s.astype(np.int64), p.astype(np.int64)
+
+
+def _run_scale_array(case, ctx):
+    """extract_wfs_array on an array of the real-data scale; expected stack by fancy indexing, compared in blocks."""
+    import hashlib
+    import pandas as pd
+    wx = sut.waveform_extraction()
+    a = case["scale"]
+    ns = case["ns"]
+    off, length = case["win"]
+    x, y = _flat_geometry(case["geom"])
+    nch = x.size
+    lists = _neighbour_lists(x, y, a["radius"] ** 2)
+    nbt0 = _neighbour_table(lists, nch)
+    nn = nbt0.shape[1]
+    src, lay, ro = a["src"], a["layout"], bool(a["ro"])
+    add = src != "given32"
+    rows = nch + (0 if add else 1)
+    rng = np.random.default_rng(case["data_seed"])
+    shape = (rows, ns) if lay == "c" else (ns, rows)
+    base = np.empty(shape, dtype=np.int16 if src == "add16" else np.float32)
+    data = base[:nch] if lay == "c" else base[:, :nch]
+    if src == "add16":
+        data[...] = rng.integers(-32768, 32768, size=data.shape, dtype=np.int16)
+    else:
+        data[...] = rng.standard_normal(data.shape, dtype=np.float32) * np.float32(30)
+    if not add:
+        (base[nch:] if lay == "c" else base[:, nch:])[...] = np.nan
+    given = base if lay == "c" else base.T
+    arr = given[:nch]
+    if ro:
+        base.flags.writeable = False
+        given.flags.writeable = False
+    digest0 = hashlib.blake2b(base).digest()
+    s, p = _scale_array_spikes(case)
+    m = s.size
+    sdt, pdt = a["df_dt"]
+    if a["df_index"] == "offset":
+        index = np.arange(m) + 1000
+    elif a["df_index"] == "shuffled":
+        index = np.random.default_rng(a["sseed"] ^ 0x5bd1).permutation(m)
+    else:
+        index = None
+    df = pd.DataFrame({"sample": s.astype(sdt), "peak_channel": p.astype(pdt)}, index=index)
+    df0 = df.copy(deep=True)
+    nbk = a["nb_kind"]
+    nbt = nbt0.astype(np.int32) if nbk == "int32" else np.asfortranarray(nbt0) if nbk == "f_order" else nbt0.copy()
+    kwa = {}
+    if (off, length) != (TROUGH, LENGTH) or a["sseed"] % 2:
+        kwa = {"trough_offset": off, "spike_length_samples": length}
+    big = np.array(_big_seams(ns), dtype=np.int64)
+    w0 = s - off  # first sample of the window; the seam b lies inside when w0 < b <= w0 + length - 1
+    straddle = int(np.sum((w0[:, None] < big[None, :]) & (big[None, :] <= w0[:, None] + length - 1)))
+    ctx.label("scale_array", "scale_array_" + a["shape"], "scale_array_" + src, "scale_array_layout_" + lay,
+              "scale_array_readonly" if ro else "scale_array_writeable",
+              "scale_array_window_default" if (off, length) == (TROUGH, LENGTH) else "scale_array_window_custom",
+              "scale_samples>2^24" if ns > 2 ** 24 else "scale_samples>2e6" if ns > 2 * 10 ** 6 else "scale_samples>2^20",
+              "scale_spikes>2^17" if m > 2 ** 17 else "scale_spikes>1e5" if m > 10 ** 5 else "scale_spikes>2^16",
+              "scale_array_nn=1" if nn == 1 else "scale_array_nn=all" if nn == nch else "scale_array_nn_mid",
+              "scale_array_df_sample_" + sdt, "scale_array_df_index_" + a["df_index"])
+    if m > 2 ** 16 and straddle:
+        ctx.nontrivial = True
+        ctx.label("scale_window_across_2^20_or_1e6")
+    r = ctx.call("C13.extract_array", wx.extract_wfs_array, given, df, nbt, add_nan_trace=add, **kwa)
+    if r is ctx.CRASH:
+        return
+    if not ctx.check(isinstance(r, tuple) and len(r) == 3, "C13.extract_array",
+                     "extract_wfs_array did not return (wfs, cind, trough_offset)"):
+        return
+    wfs, cind, toff = r
+    if ctx.check(isinstance(wfs, np.ndarray) and wfs.shape == (m, nn, length), "C13.extract_array",
+                 lambda: f"extract_wfs_array on {m} spikes, array ({rows}, {ns}) {lay}/{given.dtype}: shape {np.shape(wfs)}, "
+                         f"expected {(m, nn, length)}"):
+        ar = np.arange(length, dtype=np.int64) - off
+        edt = np.float64 if src == "add16" else np.float32
+        nbad, first = 0, []
+        for a0 in range(0, m, 4096):
+            sl = slice(a0, min(m, a0 + 4096))
+            ch = nbt0[p[sl]]
+            pad = ch == nch
+            e = arr[np.where(pad, 0, ch)[:, :, None], (s[sl][:, None] + ar[None, :])[:, None, :]].astype(edt)
+            e[pad] = np.nan
+            g = wfs[sl]
+            if not np.array_equal(g, e, equal_nan=True):
+                neq = ~np.all((g == e) | (np.isnan(g) & np.isnan(e)), axis=(1, 2))
+                nbad += int(neq.sum())
+                if len(first) < 4:
+                    first += [(int(i) + a0, int(s[int(i) + a0]), int(p[int(i) + a0])) for i in np.flatnonzero(neq)[:4 - len(first)]]
+        ctx.check(nbad == 0, "C13.extract_array",
+                  lambda: f"extract_wfs_array(offset={off}, length={length}, traces {lay}/{given.dtype} ({rows}, {ns}), {m} "
+                          f"spikes): {nbad} waveforms differ from arr[neighbours, s-off:s-off+len]; first (row, sample, "
+                          f"channel): {first}")
+    ctx.check(np.array_equal(cind, nbt0[p]) and toff == off, "C13.extract_array_info",
+              "returned channel indices / trough offset differ from the request")
+    try:
+        same_df = bool(df.equals(df0)) and np.array_equal(df.index.to_numpy(), df0.index.to_numpy())
+    except Exception:  # noqa
+        same_df = False
+    ctx.check(hashlib.blake2b(base).digest() == digest0 and _same_array(nbt, nbt0) and same_df, "C13.extract_array_args",
+              "extract_wfs_array modified the traces, the spike table or the neighbour table it was given")
+
+
 def run_case(case, ctx):
     import joblib
+    if (case.get("scale") or {}).get("kind") == "array":
+        return _run_scale_array(case, ctx)
     wx = sut.waveform_extraction()
     sg = sut.spikeglx()
     mode, ns = case["mode"], case["ns"]
@@ -985,6 +1390,7 @@ def run_case(case, ctx):
                 h = {"x": x.astype(float), "y": y.astype(float)}
             ctx.label("geom_" + spec["gen"], "pat_" + spec["pattern"], "sort" if case["sort"] else "nosort", "h_" + hk)
         ctx.label(mode, "window_default" if default_win else "window_custom")
+        scale = case.get("scale")
         _array_level(case, ctx, x, y)
         if mode == "flat32":
             src = D[:, :nch]
@@ -1012,26 +1418,27 @@ def run_case(case, ctx):
         lo, hi = _valid_range(ns, off, length)
         valid = (s >= lo) & (s <= hi)
         max_wf = case["max_wf"]
-        any_more = False
-        for uid in np.unique(u):
-            nv = int(np.sum(valid & (u == uid)))
-            ctx.label("unit_zero" if nv == 0 else "unit_one" if nv == 1 else "unit_fewer" if nv < max_wf
-                      else "unit_exact" if nv == max_wf else "unit_more")
-            any_more = any_more or nv > max_wf
+        nvs = _valid_counts(u, valid)[1]
+        for name, m in (("unit_zero", nvs == 0), ("unit_one", nvs == 1), ("unit_fewer", (nvs > 1) & (nvs < max_wf)),
+                        ("unit_exact", (nvs == max_wf) & (nvs > 1)), ("unit_more", (nvs > max_wf) & (nvs > 1))):
+            if np.any(m):
+                ctx.label(name)
+        any_more = bool(np.any(nvs > max_wf))
         ctx.label("first_spike_valid" if valid[0] else "first_spike_invalid")
+        if scale:
+            nchk = max(-(-ns // run["chunk"]) for run in case["runs"])
+            ctx.label("scale_file", "scale_samples>2e6" if ns > 2 * 10 ** 6 else "scale_samples>2^20",
+                      "scale_train>2^20" if s.size > 2 ** 20 else "scale_train>1e6",
+                      "scale_chunks>1000" if nchk > 1000 else "scale_chunks>256" if nchk > 256 else "scale_chunks<=256",
+                      "scale_units>100" if nvs.size > 100 else "scale_units<=100")
         if np.any(valid & np.isin(s, [lo, hi])):
             ctx.label("spike_on_validity_limit")
         if np.any(~valid):
             ctx.label("invalid_spikes_present")
         if np.any(valid & ((c == 0) | (c == nch - 1))):
             ctx.label("peak_at_probe_end")
-        su = {}
-        dup = False
-        for a, b in zip(s.tolist(), u.tolist()):
-            if a in su and su[a] != b:
-                dup = True
-            su.setdefault(a, b)
-        if dup:
+        # a sample shared by two units: s is sorted, so some neighbours of such a group differ in their unit
+        if np.any((s[1:] == s[:-1]) & (u[1:] != u[:-1])):
             ctx.label("time_shared_by_units")
         dts, dtu, dtc = case["dtypes"]
         lay, ro = dims.get("spk", "contig"), bool(dims.get("ro", False))
@@ -1144,6 +1551,17 @@ def run_case(case, ctx):
                 if np.any(dist <= length):
                     ctx.nontrivial = True
                     ctx.label("selected_spike_near_chunk_boundary")
+            if scale and o["t"]["sample"].size:
+                # real-data scale: a selected spike whose window holds a multiple of 2^20 / 10^6, and every seam of this
+                # configuration's chunk size that was given a spike has it selected
+                big = np.array(_big_seams(ns), dtype=np.int64)
+                w0 = o["t"]["sample"] - off
+                if np.any((w0[:, None] < big[None, :]) & (big[None, :] <= w0[:, None] + length - 1)):
+                    ctx.nontrivial = True
+                    ctx.label("scale_window_across_2^20_or_1e6")
+                seams = np.arange(1, nchunks) * run["chunk"]
+                if seams.size and np.all(np.isin(seams, o["t"]["sample"])):
+                    ctx.label("scale_spike_selected_on_every_seam")
         if outs[0] is not None and outs[1] is not None and case["seed"] is not None:
             diff = _same_files(outs[0], outs[1])
             ctx.check(diff is None, "C13.config_invariance" + sfx,
